@@ -172,6 +172,45 @@ theorem canary11_rejected (impl : Impl) (o : Offer) (ctx : ClientCtx) (r : Respo
     · exact ⟨.protocolVersion, abort_of_version_guard (by rw [versionGuards_firstFail, h1, h2]; rfl), Or.inr rfl⟩
     · exact ⟨.illegalParameter, abort_of_version_guard (by rw [versionGuards_firstFail, h1, h2, hd]; rfl), Or.inl rfl⟩
 
+/-! ## SetTLSVers: the spec's range replaces whatever the Config held -/
+
+private theorem setTLSVers_ok_range {mn mx : Nat} {exts : List (List Nat)} {a b : Nat}
+    (h : setTLSVers mn mx exts = .ok (a, b)) : tls10 ≤ a ∧ a ≤ tls13 ∧ tls10 ≤ b ∧ b ≤ tls13 := by
+  unfold setTLSVers at h
+  split at h
+  · cases h
+  · exact (validateVers_ok h).2.2
+
+/-- **`SetTLSVers` overrides the Config**: after it succeeded with (a, b) (and no ECH config list is
+set) `Config.MinVersion/MaxVersion` are (a, b) and the versions the client accepts are the same
+whatever the Config held before — a bound pinned by the caller or left by an earlier connection
+that used the same `*Config` does not survive. The result is a function of the spec only. -/
+theorem setTLSVers_overrides_config (a b : Nat) (before1 before2 : ClientCtx) :
+    (ctxOfVers a b false before1).cfgMin = a ∧ (ctxOfVers a b false before1).cfgMax = b ∧
+    cfgVersions (ctxOfVers a b false before1) = cfgVersions (ctxOfVers a b false before2) := by
+  refine ⟨rfl, rfl, ?_⟩
+  simp [ctxOfVers, cfgVersions]
+
+/-- **The client settles inside the spec's range**: with the Config as `SetTLSVers` leaves it for a
+spec (explicit `TLSVersMin/Max`, else its supported_versions extension, else 1.0–1.2), whatever the
+Config held before, an accepted handshake runs at a version between the minimum and the maximum
+`SetTLSVers` derived — in particular never below the spec's minimum when the hello carries no
+supported_versions extension. -/
+theorem settles_within_spec_range (impl : Impl) (o : Offer) (before : ClientCtx) (r : Response) (st : State)
+    (mn mx : Nat) (exts : List (List Nat)) (a b : Nat)
+    (hs : setTLSVers mn mx exts = .ok (a, b))
+    (h : clientStep impl o (ctxOfVers a b false before) r = .accept st) :
+    a ≤ st.version ∧ st.version ≤ b ∧ Advertised o (ctxOfVers a b false before) st.version ∧
+    specMin (ctxOfVers a b false before) = a := by
+  obtain ⟨ha1, _, hb1, _⟩ := setTLSVers_ok_range hs
+  obtain ⟨hadv, hc, _⟩ := version_advertised impl o _ r st h
+  obtain ⟨_, hmin, hmax, _⟩ := cfgVersions_mem hc
+  have ha0 : a ≠ 0 := by unfold tls10 at ha1; omega
+  have hb0 : b ≠ 0 := by unfold tls10 at hb1; omega
+  refine ⟨hmin ha0, hmax hb0, hadv, ?_⟩
+  show (if a = 0 then tls12 else a) = a
+  rw [if_neg ha0]
+
 /-! ## the regenerated parrot table -/
 
 open Gen.ParrotVers in
